@@ -5,7 +5,7 @@ import pyspec
 from . import C01, common, fcommon
 
 ID = "C05"
-LEVEL = "other"
+LEVEL = "proof"
 DRIVER = fcommon.DRIVER
 RUNNER = fcommon.RUNNER
 build = fcommon.build
@@ -18,11 +18,13 @@ RULE = ("one Sqrt per program over a receiver and an operand: perfect squares r^
         "family), decimal exponents of both parities from -2^31 to 2^31-1, receiver precision below / equal to / above the "
         "operand's and 0, six rounding modes, +-0, +-Inf, negative operands, receiver aliased with the operand; "
         "distinct = different program text; non-trivial = finite positive operand")
-EXPLANATION = ("Props/C05.v proves the special-value table, that precision and mode of the receiver are the documented ones for "
-               "every input on which the model returns, and the exponent split (Newton iteration on a value in [0.01,10), halved "
-               "exponent re-attached); it refutes correct rounding with a computed witness (K1).  The run ties the model (Newton "
-               "iteration incl. the float64 seed, bit for bit) to the code and classifies every implementation result with an "
-               "independent integer-square oracle as correctly rounded / adjacent to the correctly rounded value (K1 shape) / worse")
+EXPLANATION = ("Props/C05.v proves, for the repaired Sqrt (commit c25a621: correction of the Newton approximation with exact squares, "
+               "sticky digit, one final rounding), the special-value table, the receiver's precision and mode, and that whenever the "
+               "model returns, the result is the square root rounded once to the receiver's precision under its mode with a truthful "
+               "accuracy (stated over Q through squares: IsSqrtRounding); the only hypothesis on the Newton stage is that it returned a "
+               "canonical positive finite value below 10 - nothing about its closeness to the root.  The run ties the model (Newton "
+               "iteration incl. the float64 seed, correction loops) to the code and classifies every implementation result with an "
+               "independent integer-square oracle; any result that is not the correctly rounded root is a violation")
 ASSUMPTIONS = ["operands well-formed (C08)", "natural-number routines exact (C06) and word kernels correct (C07)",
                "float64 division and math.Sqrt are IEEE-754 correctly rounded (amd64 SSE2)"]
 TRUSTED = ["L3/Bin.v: executable IEEE-754 binary64 division/sqrt/conversion used for the float64 seed of the Newton iteration"]
